@@ -88,6 +88,10 @@ func headerAtoms(target string) []hdrAtom {
 		{"Content-Length: 5", "neutral", "", ""},
 		{"Content-Location: " + target, "neutral", "", ""},
 		{"X-Location: " + target, "neutral", "", ""},
+		{"Content-Type: */*", "ct-bad", "", ""},
+		{"Content-Type: application/*", "ct-bad", "", ""},
+		{"Content-Type: */activity+json", "ct-bad", "", ""},
+		{"Content-Type: application/*; charset=utf-8", "ct-bad", "", ""},
 		{"Locat\u0130on: " + target, "neutral", "", ""},
 		{"Content-Type\u200b: application/activity+json", "neutral", "", ""},
 		{"\u212aontent-Type: application/activity+json", "neutral", "", ""},
